@@ -129,3 +129,13 @@ package cppki
 //@   trusted
 //@   modifies nothing
 //@   ensures result == zeroSigned(*s)
+
+//@ # ---- chain verification (C34/C36): x509 path building is not interpreted. chainOK(certs, trc) names the
+//@ # outcome of verifying a chain against the roots of one TRC; VerifyChain with a single TRC returns nil iff chainOK.
+//@ import x509 "crypto/x509"
+//@ spec func chainOK(certs []*x509.Certificate, trc *TRC) bool uninterpreted
+//@ func VerifyChain
+//@   trusted
+//@   requires len(opts.TRC) == 1
+//@   modifies nothing
+//@   ensures (result == nil) == chainOK(certs, opts.TRC[0])
